@@ -173,6 +173,17 @@ def check_clean(ck, rb, home, drv):
         items.append((r, u[0], u[1]))
     model = model_clean(drv, items)
     fails, mism = [], []
+    # main() of qmail-clean.c as generated from today's source by tools/c2gallina.py, one request at a time with the same unlink
+    # answers: the same status byte and the same unlink calls as the model (which is compared with the real process below)
+    try:
+        gen = model_clean(vlib.build_driver("GEN"), items)
+        for (r, u1, u2), g, m_ in zip(items, gen, model):
+            ck.count("clean_generated_main")
+            if g != m_:
+                mism.append(dict(kind="translator", what="generated main() of qmail-clean.c and the model disagree", request_hex=vlib.hx(r), unlink_answers=u1 + u2,
+                                 generated=[vlib.hx(g[0]), [p.decode("latin1") for p in g[1]]], model=[vlib.hx(m_[0]), [p.decode("latin1") for p in m_[1]]])); break
+    except (RuntimeError, ValueError) as e:
+        mism.append(dict(kind="translator", what="the generated main() of qmail-clean.c does not build or run", log=str(e)[-600:]))
     suspicious = []
     for i, (r, (out, unl), (mresp, mpaths)) in enumerate(zip(reqs, obs, model)):
         ck.evaluated()
